@@ -20,7 +20,7 @@ pub static DEF: PropDef = PropDef {
     ],
     run,
     replay,
-    fuzz: None,
+    fuzz: Some(fuzz_one),
 };
 
 #[derive(Serialize, Deserialize, Debug, Clone, PartialEq, Eq)]
@@ -581,4 +581,35 @@ fn replay(w: &mut Worker, sub: &str, v: Value) -> Outcome {
     } else {
         check(&mut w.ctx, &decode(v))
     }
+}
+
+/// libFuzzer entry.  Byte 0 even: the remaining bytes are the choice stream of the format
+/// generator; the format is rendered by find on the entry "." (the fuzz process's own working
+/// directory, depth 0) and compared with the independent renderer.  Byte 0 odd: the remaining
+/// bytes are raw format text - oracle: no panic (a diagnostic is fine).
+pub fn fuzz_one(data: &[u8]) -> Option<crate::engine::Violation> {
+    if data.len() < 2 {
+        return None;
+    }
+    if data[0] % 2 == 1 {
+        let text = String::from_utf8_lossy(&data[1..data.len().min(200)]).replace('\0', "");
+        // widths are bounded by the parser (<= 65535); nothing here can produce more than ~1 MB
+        let _ = crate::engine::proc::find_plain(&[".", "-maxdepth", "0", "-printf", &text]);
+        return None;
+    }
+    let words = crate::words_of(&data[1..]);
+    let mut g = Gen::new(&words);
+    let n = g.usize_in(1, 8);
+    let fmt: Vec<Comp> = (0..n).map(|_| gen_comp(&mut g, false)).collect();
+    let text = render_fmt(&fmt);
+    let e = crate::engine::fsx::make_entry(".", 0, FollowMode::P)?;
+    let alts = expected_for(&fmt, &e, ".")?;
+    let (status, out) = crate::engine::proc::find_plain(&[".", "-maxdepth", "0", "-printf", &text]);
+    if status != 0 || !alts.iter().any(|a| *a == out) {
+        return Some(crate::engine::Violation {
+            signature: "C16:fuzz:rendering-of-dot-differs".into(),
+            detail: format!("find . -maxdepth 0 -printf {text:?}\nexit {status}\nexpected one of {:?}\nobserved {:?}", alts.iter().map(|a| lossy(a)).collect::<Vec<_>>(), lossy(&out)),
+        });
+    }
+    None
 }
